@@ -163,8 +163,21 @@ class StreamReader:
             kw = {k.arg: k.value for k in e.keywords}
             pos = e.args[0] if e.args else kw.get('position')
             dist = e.args[1] if len(e.args) > 1 else kw.get('distance')
-            if pos is not None and dist is not None and src(self.ex(dist)) == '1':
-                return Stream('nbrs', '', centre=src(self.ex(pos)), source=BOUNDARY)
+            extra = set(kw) - {'position', 'distance'}
+            clip = self._boundary_clip_param()
+            if pos is not None and dist is not None and src(self.ex(dist)) == '1' and \
+                    extra <= ({clip} if clip else set()) and len(e.args) <= 2:
+                st = Stream('nbrs', '', centre=src(self.ex(pos)), source=BOUNDARY)
+                if clip in kw:
+                    # the helper itself keeps only the cells of the area it is given
+                    a = self.ex(kw[clip])
+                    if not (isinstance(a, ast.Attribute) and a.attr == 'area'):
+                        return None
+                    st.grid = src(a.value)
+                    st.filters.append(ast.parse(f'{st.grid}.area.contains(P)',
+                                                mode='eval').body)
+                    st.source = f'{BOUNDARY}(.., {clip}=..)'
+                return st
             return None
         if not isinstance(e, (ast.ListComp, ast.GeneratorExp)):
             return None
@@ -248,6 +261,51 @@ class StreamReader:
             return None
         conds = [c for g in gens for c in g.ifs]
         return self._finish(st, e.elt, conds, mp)
+
+    def _boundary_clip_param(self) -> Optional[str]:
+        """name of an optional parameter of get_manhattan_boundary (added after the pinned
+        tree) under which the function returns only the boundary cells `<param>.contains`
+        accepts, in the same order: `if area is not None: b = [p for p in b if
+        area.contains(p)]` before the return, or that filter in the returned comprehension"""
+        f = self.index.resolve_name(self.module, BOUNDARY)
+        if f is None or not hasattr(f, 'node'):
+            return None
+        hit = getattr(self.index, '_boundary_clip', None)
+        if hit is not None:
+            return hit or None
+        fn = f.node
+        defaults = f.param_defaults()
+        cands = [a.arg for a in fn.args.kwonlyargs + fn.args.args[2:]
+                 if isinstance(defaults.get(a.arg), ast.Constant)
+                 and defaults[a.arg].value is None]
+        found = ''
+        rets = [n for n in ast.walk(fn) if isinstance(n, ast.Return) and n.value is not None]
+        for c in cands:
+            uses = [n for n in ast.walk(fn) if isinstance(n, ast.Name) and n.id == c
+                    and isinstance(n.ctx, ast.Load)]
+            ok = len(rets) == 1 and isinstance(rets[0].value, ast.Name)
+            if not ok:
+                continue
+            r = rets[0].value.id
+            clips = [s_ for s_ in fn.body if isinstance(s_, ast.If) and not s_.orelse
+                     and src(s_.test) == f'{c} is not None' and len(s_.body) == 1
+                     and isinstance(s_.body[0], ast.Assign)
+                     and src(s_.body[0].targets[0]) == r
+                     and isinstance(s_.body[0].value, ast.ListComp)
+                     and len(s_.body[0].value.generators) == 1
+                     and src(s_.body[0].value.generators[0].iter) == r
+                     and isinstance(s_.body[0].value.generators[0].target, ast.Name)
+                     and src(s_.body[0].value.elt) == s_.body[0].value.generators[0].target.id
+                     and [src(x) for x in s_.body[0].value.generators[0].ifs] ==
+                     [f'{c}.contains({s_.body[0].value.generators[0].target.id})']]
+            if len(clips) == 1 and len(uses) == 2 and fn.body.index(clips[0]) == \
+                    fn.body.index(rets[0]) - 1:
+                found = c
+        try:
+            self.index._boundary_clip = found
+        except Exception:       # noqa: BLE001
+            pass
+        return found or None
 
     def _flat_cells(self, e: ast.AST) -> Optional[str]:
         """G when `e` lists the cells of G row after row: chain.from_iterable(G.objects),
